@@ -38,6 +38,14 @@ def main(argv=None):
         common.import_pvl()
         rec = common.Rec()
         hb = common.Heartbeat(i)
+        if not getattr(mod, "OWN_HISTORY", False):
+            # every second worker first lives through a history of ordinary
+            # calls in other dialects and configurations (vlib/prelude.py)
+            from . import prelude
+            what = prelude.hostile_history(common.import_pvl(), i)
+            rec.count("workers_with_a_hostile_history" if what
+                      else "workers_starting_fresh")
+            hb.beat()
         mod.shard(i, n, tier, seed, rec, hb)
         common.write_shard_result(i, rec)
         return 0
